@@ -761,7 +761,13 @@ func (it *Interp) instrs(fr *frame, b *ssa.BasicBlock, i int, st *State, k cont)
 		case *ssa.Store:
 			it.store(it.val(fr, x.Addr, st), it.val(fr, x.Val, st), st)
 		case *ssa.MapUpdate:
-			st.Events = append(st.Events, Event{Kind: "itemsstore", InOp: st.curOp, InRange: st.curRng, Key: it.val(fr, x.Key, st), Args: []*Term{it.val(fr, x.Value, st)}, Pos: it.P.InstrPos(in)})
+			// the map a method builds and returns (Items) is followed; an update of some other map - a tally kept in a
+			// helper object - is bookkeeping that no result depends on (who may touch it concurrently is C14.A9's matter)
+			kind := "itemsstore"
+			if mt := it.val(fr, x.Map, st); mt == nil || mt.Op != "newmap" {
+				kind = "helpermapstore"
+			}
+			st.Events = append(st.Events, Event{Kind: kind, InOp: st.curOp, InRange: st.curRng, Key: it.val(fr, x.Key, st), Args: []*Term{it.val(fr, x.Value, st)}, Pos: it.P.InstrPos(in)})
 		case ssa.Value:
 			fr.env[x] = it.eval(fr, x, st)
 		default:
@@ -1143,6 +1149,19 @@ func (it *Interp) external(cal *ssa.Function, args []*Term, st *State, pos strin
 		}
 	case "(time.Time).Before":
 		k(st, []*Term{Mk("cmp", ">", Mk("unixnano", "", args[1]), Mk("unixnano", "", args[0]))})
+	case "(*sync.Mutex).Lock", "(*sync.Mutex).Unlock", "(*sync.RWMutex).Lock", "(*sync.RWMutex).Unlock", "(*sync.RWMutex).RLock", "(*sync.RWMutex).RUnlock":
+		// a mutex of the cache layer's own (a helper object's guard): an event, no effect on the values; whether user
+		// code runs while it is held, and whether it is released on every path, is the lock rules' matter (C13)
+		kind := "mulock"
+		if strings.HasSuffix(id, "nlock") {
+			kind = "muunlock"
+		}
+		ev := Event{Kind: kind, Name: id, Pos: pos}
+		if len(args) > 0 {
+			ev.Key = args[0]
+		}
+		st.Events = append(st.Events, ev)
+		k(st, []*Term{Leaf("void", "")})
 	default:
 		if it.atomicSetting(id, cal, args, st, pos, k) {
 			return
